@@ -51,6 +51,14 @@ let consts_field () =
   String.concat "," (List.map (fun k -> string_of_int (int_n k))
     [k_MergeBlockNumber; k_ShanghaiBlockNumber; k_CancunNumber; k_epochSize; k_capellaForkEpoch; k_slotsPerEpoch])
 
+(* "hash:difficultyhex:extrahex,..." -> [(number, hash, difficulty)], numbers 0.. *)
+let parse_chain (s : string) : ((n * byte list) * n) list =
+  if s = "." then [] else
+  List.mapi (fun j e ->
+    match String.split_on_char ':' e with
+    | [h; d; _] -> ((n_ j, b (Util.bytes_of_hex h)), Obj.magic (Util.n_of_hex d))
+    | _ -> failwith "chain") (String.split_on_char ',' s)
+
 let handle fields impl : string option * string list =
   match fields with
   | ["embedded"; nepochs; _nroots; consts] ->
@@ -91,7 +99,8 @@ let handle fields impl : string option * string list =
       else fail "accepted-forged-proof"
     end;
     (* completeness on what the generator built honestly *)
-    if honest && not (starts impl "ok") then fail "rejected-honest-proof";
+    if honest && not (starts impl "ok") then
+      fail (if truth = "honest-partial-epoch" then "rejected-honest-proof-partial-epoch" else "rejected-honest-proof");
     (* totality: C03_never_panics assumes only that the pre-merge accumulator covers every pre-merge epoch *)
     if starts impl "panic" then begin
       let premerge = N.ltb number k_MergeBlockNumber in
@@ -103,6 +112,37 @@ let handle fields impl : string option * string list =
     (* Util.run compares observables literally except for error classes: a panic message is informative only *)
     let model = if model = "panic" && starts impl "panic" then impl else model in
     (Some model, !fails)
+  (* ---- the prover: real NewAccumulator/Update/Finish + BuildProof vs Model/HeaderProver.v ---- *)
+  | ["prover"; consts; chain; idx] ->
+    if consts <> consts_field () then (Some "driver: compiled constants differ from K_header.v", []) else
+    let hs = parse_chain chain in
+    let idx = List.map int_of_string (String.split_on_char ',' idx) in
+    let model_roots = match build_accumulator_sha hs with Ok l -> Some (List.map ub l) | _ -> None in
+    let rec take k l = if k = 0 then [] else match l with [] -> [] | x :: t -> x :: take (k - 1) t in
+    let proof_of i =
+      let e = i / 8192 in
+      match acc_run_sha acc_new (take ((e + 1) * 8192) hs) with
+      | Ok a -> Some (List.concat (List.map ub (build_proof_sha (a_chunks a) (n_ i))))
+      | _ -> None in
+    let model_proofs = List.map proof_of idx in
+    let model = match model_roots with
+      | Some r when List.for_all (fun p -> p <> None) model_proofs ->
+        "ok " ^ Util.string_of_items r ^ " " ^ Util.string_of_items (List.map (function Some p -> p | None -> []) model_proofs)
+      | _ -> "err" in
+    (* C03_built_proof_verifies: against the roots of the MODEL builder every proof of the model prover verifies; an
+       implementation that produces other roots or other proofs has left that specification (the validate lines that follow
+       then show whether its own verifier still accepts its own proofs) *)
+    let fails = ref [] in
+    (match String.split_on_char ' ' impl, String.split_on_char ' ' model with
+     | ["ok"; ir; ip], ["ok"; mr; mp] ->
+       if ir <> mr then fails := ("accumulator-root-differs-from-spec chain_len=" ^ string_of_int (List.length hs) ^ " impl=" ^ ir ^ " spec=" ^ mr) :: !fails;
+       if ip <> mp then fails := ("built-proof-differs-from-spec chain_len=" ^ string_of_int (List.length hs)) :: !fails
+     | _ -> if not (starts impl "ok") then fails := ("prover-fails-on-honest-chain impl=" ^ impl) :: !fails);
+    (Some model, !fails)
+  | ["bhwp"; consts; _chain; _i] ->
+    if consts <> consts_field () then (Some "driver: compiled constants differ from K_header.v", []) else
+    (* BuildHeaderWithProof = BuildProof + the header's RLP; its output is validated by the validate line that follows *)
+    (None, if starts impl "ok" then [] else ["build-header-with-proof-fails impl=" ^ impl])
   | _ -> (Some "driver: unknown line", [])
 
 let () = Util.run handle
